@@ -955,6 +955,45 @@ def events_of(outs, npre, mode, valid, first_code, target):
     return ev
 
 
+def uninitialised_reads(rep, tier):
+    """'without memory error or undefined behaviour ... for megabyte tokens': the address sanitizer does not see a read of
+    memory that was allocated but never written.  A plain (unsanitized) build of the harness is run under valgrind's
+    memcheck on inputs whose tokens outgrow the scan buffer (so that it is extended, not compacted) - well formed and not -
+    followed by a walk, a write and the destruction of the result.  Any memcheck error is a violation."""
+    import shutil as _sh
+    if not _sh.which("valgrind"):
+        raise Infra("valgrind is not installed")
+    plain = build("plain")
+    body = "\n".join(("L%07d:" % i + "jklmnopqrstuvwxyzABCDEFGHIJKLMNOPQRSTUVWXYZ0123456789abcdefgh")[:63] for i in range(2400 if tier == "quick" else 9000))
+    docs = [("a text field of %d characters" % len(body), "#\\#CIF_2.0\ndata_b\n_before 'first value'\n_big\n;" + body + "\n;\n_after 'last value'\n"),
+            ("an unterminated quoted string of 70000 characters", "#\\#CIF_2.0\ndata_b\n_v '" + "q" * 70000 + "\n_w 2\n"),
+            ("a bare value of 140000 characters", "#\\#CIF_2.0\ndata_b\n_v " + "w" * 140000 + "\n_w 2\n"),
+            ("a triple-quoted string, a loop and a list", "#\\#CIF_2.0\ndata_b\n_v \'\'\'" + body + "\'\'\'\nloop_ _a _b 1 2 3 4\n_l [1 2 {'k':v}]\n"),
+            ("an unterminated text field of %d characters, CIF 1.1" % len(body), "data_b\n_v\n;" + body + "\n"),
+            ("a comment of 200000 characters and a data name of 70000", "#\\#CIF_2.0\n#" + "c" * 200000 + "\ndata_b\n_" + "n" * 70000 + " 1\n_w 2\n")]
+    n = 0
+    for label, d in docs:
+        for extra in ({"cif": "c"}, {}):
+            cmds = [dict({"op": "parse", "text": d, "errors": "accept"}, **extra)]
+            if extra:
+                cmds += [{"op": "walk", "cif": "c", "script": []}, {"op": "write", "cif": "c", "bytes": 0}, {"op": "cif_destroy", "cif": "c"}]
+            wd = scratch_dir("vg")
+            inp = os.path.join(wd, "in.ndjson")
+            open(inp, "w").write("".join(json.dumps(c) + "\n" for c in cmds))
+            with open(inp) as fi:
+                p_ = subprocess.run(["valgrind", "-q", "--error-exitcode=99", "--undef-value-errors=yes", "--leak-check=no", plain], stdin=fi, capture_output=True, text=True, timeout=900)
+            cleanup(wd)
+            n += 1
+            if p_.returncode == 99 or "== Invalid" in p_.stderr or "uninitialised" in p_.stderr:
+                m = re.search(r"==\d+== ([A-Z][^\n]*)\n==\d+==\s+at 0x[0-9A-F]+: (\w+)", p_.stderr)
+                what = "%s in %s" % (m.group(1), m.group(2)) if m else "memcheck error"
+                rep.violation("memcheck: " + what, "parsing %s (%s): valgrind reports %s" % (label, "into a CIF, then walk / write / destroy" if extra else "syntax only", what),
+                              {"label": label, "stderr": p_.stderr[:2500], "document_head": d[:120]})
+            elif p_.returncode != 0:
+                raise Infra("valgrind run failed (rc %s): %s" % (p_.returncode, p_.stderr[-800:]))
+    return n
+
+
 def c03(tier, replay=None):
     rep = Report("C03", tier, "exploration")
     binary = build("asan")
@@ -1094,10 +1133,11 @@ def c03(tier, replay=None):
     cleanup(wd)
     kinds = collections.Counter(x[0] for x in inputs)
     rep.samples = [{"input_kind": inputs[i][0], "hex": inputs[i][1][:60].hex(), "options": inputs[i][2], "target": inputs[i][3]} for i in (0, len(inputs) // 2, len(inputs) - 1)]
+    nvg = uninitialised_reads(rep, tier)
     log("[C03] inputs %d executions %d events %d lost %d rejected %d" % (len(inputs), nexec, len(events), len(lost), rejected))
     return rep.finish({"evaluations": nexec, "distinct_nontrivial": len({(x[1], json.dumps(x[2]), x[3]) for x in inputs}),
                        "rule": "inputs = CifDoc documents, 5 byte mutations each, UTF-16/32/BOM/Latin-1 re-encodings, hand-written seeds; crossed with 17 option sets, 3 targets, and callback policies accept-all / reject the k-th / default handler; distinct = distinct (bytes, options, target)",
-                       "inputs": len(inputs), "input_kinds": dict(kinds), "events_validated_by_tlc": len(events), "monitor_states": tstates, "executions_not_returning": len(lost),
+                       "inputs": len(inputs), "input_kinds": dict(kinds), "memcheck_executions": nvg, "events_validated_by_tlc": len(events), "monitor_states": tstates, "executions_not_returning": len(lost),
                        "samples": rep.samples},
                       ["memory errors are made observable by ASan/UBSan (an execution that does not return is a rejected trace)",
                        "not coverage-guided: depth comes from starting at grammar-derived documents"])
